@@ -160,6 +160,19 @@ def ties_project(rng, scale=1):
         "import tri0_0\nimport tri1_0\n"
     files["hub.py"] = hub + "\n\ndef hub():\n    return 0\n"
     files["hub2.py"] = hub + "import hub\n\n\ndef hub2():\n    return 0\n"
+    # a module with several dependencies leading into overlapping import cycles, and a chain hanging off the cycle
+    # (whatever is computed while walking such a graph must not depend on the order the dependencies are visited in)
+    for g in range(2):
+        pre = "ov%d_" % g
+        ring = ["billing", "catalog", "shipping", "returns"][:3 + g]
+        files[pre + "app.py"] = "".join("import %s%s\n" % (pre, m) for m in ["orders"] + ring) + "\n\ndef run():\n    return 0\n"
+        files[pre + "orders.py"] = "".join("import %s%s\n" % (pre, m) for m in ring) + "import %saudit\n\n\ndef o():\n    return 0\n" % pre
+        for m in ring:
+            files[pre + m + ".py"] = "import %sorders\n\n\ndef f_%s():\n    return 0\n" % (pre, m)
+        tail = ["audit", "storage", "serializer", "settings"]
+        for i, m in enumerate(tail):
+            nxt = "import %s%s\n" % (pre, tail[i + 1]) if i + 1 < len(tail) else "import os\n"
+            files[pre + m + ".py"] = nxt + "\n\ndef t_%s():\n    return 0\n" % m
     # several identical clone groups (each body 3 copies), spread over two files
     c0, c1 = "", ""
     for g, tmpl in enumerate(CLONE_BODIES):
